@@ -1,1 +1,98 @@
-// placeholder
+//! Bit-exact software emulation of the 13 AArch64 NEON intrinsics that httparse's neon.rs uses,
+//! on plain arrays, following Arm's pseudo-code. Trusted base of the NEON leg of C12.
+//!
+//! `vld1q_u8` really reads 16 bytes through the pointer, so an over-read of the scanner still hits
+//! the guard page behind the buffer.
+
+#![allow(non_camel_case_types, clippy::missing_safety_doc)]
+
+#[derive(Clone, Copy, Debug, PartialEq, Eq)]
+pub struct uint8x16_t(pub [u8; 16]);
+
+#[derive(Clone, Copy, Debug, PartialEq, Eq)]
+pub struct uint64x2_t(pub [u64; 2]);
+
+#[inline(always)]
+pub unsafe fn vld1q_u8(ptr: *const u8) -> uint8x16_t {
+    uint8x16_t(core::ptr::read_unaligned(ptr as *const [u8; 16]))
+}
+
+#[inline(always)]
+pub unsafe fn vdupq_n_u8(v: u8) -> uint8x16_t {
+    uint8x16_t([v; 16])
+}
+
+#[inline(always)]
+fn map2(a: uint8x16_t, b: uint8x16_t, f: impl Fn(u8, u8) -> u8) -> uint8x16_t {
+    let mut r = [0u8; 16];
+    for i in 0..16 {
+        r[i] = f(a.0[i], b.0[i]);
+    }
+    uint8x16_t(r)
+}
+
+#[inline(always)]
+pub unsafe fn vandq_u8(a: uint8x16_t, b: uint8x16_t) -> uint8x16_t {
+    map2(a, b, |x, y| x & y)
+}
+
+#[inline(always)]
+pub unsafe fn vorrq_u8(a: uint8x16_t, b: uint8x16_t) -> uint8x16_t {
+    map2(a, b, |x, y| x | y)
+}
+
+/// BIC: a AND NOT b
+#[inline(always)]
+pub unsafe fn vbicq_u8(a: uint8x16_t, b: uint8x16_t) -> uint8x16_t {
+    map2(a, b, |x, y| x & !y)
+}
+
+#[inline(always)]
+pub unsafe fn vmvnq_u8(a: uint8x16_t) -> uint8x16_t {
+    map2(a, a, |x, _| !x)
+}
+
+#[inline(always)]
+pub unsafe fn vceqq_u8(a: uint8x16_t, b: uint8x16_t) -> uint8x16_t {
+    map2(a, b, |x, y| if x == y { 0xFF } else { 0 })
+}
+
+/// CMHS with swapped operands: a <= b (unsigned)
+#[inline(always)]
+pub unsafe fn vcleq_u8(a: uint8x16_t, b: uint8x16_t) -> uint8x16_t {
+    map2(a, b, |x, y| if x <= y { 0xFF } else { 0 })
+}
+
+/// USHR by immediate (the real intrinsic takes the shift as a legacy const generic written in
+/// argument position, which is how neon.rs calls it)
+#[inline(always)]
+pub unsafe fn vshrq_n_u8(a: uint8x16_t, n: i32) -> uint8x16_t {
+    assert!((1..=8).contains(&n));
+    map2(a, a, |x, _| if n == 8 { 0 } else { x >> n })
+}
+
+/// TBL, one table register: out-of-range indices (> 15) give 0
+#[inline(always)]
+pub unsafe fn vqtbl1q_u8(t: uint8x16_t, idx: uint8x16_t) -> uint8x16_t {
+    let mut r = [0u8; 16];
+    for i in 0..16 {
+        let j = idx.0[i] as usize;
+        r[i] = if j < 16 { t.0[j] } else { 0 };
+    }
+    uint8x16_t(r)
+}
+
+#[inline(always)]
+pub unsafe fn vreinterpretq_u64_u8(a: uint8x16_t) -> uint64x2_t {
+    let mut lo = [0u8; 8];
+    let mut hi = [0u8; 8];
+    lo.copy_from_slice(&a.0[..8]);
+    hi.copy_from_slice(&a.0[8..]);
+    // AArch64 is little-endian in every configuration Rust supports for these intrinsics
+    uint64x2_t([u64::from_le_bytes(lo), u64::from_le_bytes(hi)])
+}
+
+#[inline(always)]
+pub unsafe fn vgetq_lane_u64<const N: i32>(v: uint64x2_t) -> u64 {
+    v.0[N as usize]
+}
